@@ -18,7 +18,7 @@ from .. import rig as R, ref, gen, subm, dump, env
 from ..orch import h
 
 ID = "C03"
-TECHNIQUE = 'runtime monitoring - authenticity oracle (independent sha256 + schnorr) over everything acknowledged, stored or pushed, for ~120 single corruptions x event shapes through websocket, storage API and CLI; concurrent twins and resend-after-acceptance sequences'
+TECHNIQUE = 'runtime monitoring - authenticity oracle (independent sha256 + schnorr) over everything acknowledged, stored or pushed, for ~120 single corruptions x event shapes through websocket, storage API and CLI; concurrent twins and resend-after-acceptance sequences; end-to-end shard: a genuine event verified by one worker process, then forgeries that keep its id/sig or its delegation tag offered to every worker; one all-events watcher per worker'
 LEVEL = "exploration"
 RULE = (
     "cases = (backend, admission path, valid seed shape out of ~33 covering every kind class / delegation / tag and "
@@ -30,17 +30,30 @@ RULE = (
     "corruption label)."
 )
 ASSUMPTIONS = [
+    "end-to-end shards: a real gunicorn/uvicorn server process tree started from the tree under test (vf/e2e_launch.py: the repository's run_with_gunicorn / run_with_uvicorn; the SQL schema is made with the repository's metadata.create_all because its alembic env.py does not run with the installed SQLAlchemy; the notifier's fixed TCP port 6000 is replaced by a free port), spoken to over loopback TCP with the websockets client; real time, real sleeps",
     "coincurve/libsecp256k1, hashlib and the stdlib JSON encoder are trusted as the oracle's primitives",
     "events whose strings contain C0 controls on which JSON encoders disagree carry no obligation either way",
     "tag items that are not strings do not make an event unauthentic (the properties only require verbatim service)",
     "LMDB backend over /verif/shim; SQL = SQLite",
 ]
 MIN_NONTRIVIAL = {"quick": 300, "thorough": 1500}
-REQUIRED_COUNTERS = ["taps.ok", "taps.stored", "taps.pushed", "valid_accepted"]
+REQUIRED_COUNTERS = ["e2e.e2e_forgeries_submitted", "e2e.e2e_watchers_checked", "taps.ok", "taps.stored", "taps.pushed", "valid_accepted"]
 SHARD_TIMEOUT = {"quick": 500, "thorough": 3000}
 
 
 def plan(tier, seed):
+    return _plan(tier, seed) + e2e_plan(tier, seed)
+
+
+def e2e_plan(tier, seed):
+    """shards on a REAL server process tree (vf/e2e.py)"""
+    out = [{"mode": "e2e", "e2e": "c03", "backend": b, "workers": 2, "seed": seed} for b in ("sql", "lmdb")]
+    if tier == "thorough":
+        out += [{"mode": "e2e", "e2e": "c03", "backend": b, "workers": 3, "seed": seed + 1} for b in ("sql", "lmdb")]
+    return out
+
+
+def _plan(tier, seed):
     shards = []
     nshape = 6 if tier == "quick" else 33
     for backend in ("sql", "lmdb"):
@@ -350,6 +363,10 @@ async def run_service(backend, counters):
 
 
 def run_shard(spec):
+    if spec.get("mode") == "e2e":
+        from .. import e2e_cases
+
+        return e2e_cases.run_e2e_shard(ID, spec)
     counters = {}
     backend, path = spec["backend"], spec["path"]
     if path == "service":
@@ -383,6 +400,10 @@ def run_shard(spec):
 
 
 def replay(rp, spec):
+    if rp.get("mode") == "e2e":
+        from .. import e2e_cases
+
+        return e2e_cases.run_e2e_shard(ID, rp)
     counters = {}
     if rp.get("path") == "service":
         v = R.run(run_service, rp["backend"], counters)
